@@ -158,7 +158,7 @@ CaseSet0 == {x \in Cases : x.l \in LocsOf(x.k) /\ Applicable(x.k, x.l, x.cause) 
 \* benign broker traffic that precedes the call on the established connection and concerns nobody: an unsolicited
 \* (or late) PINGRESP, acknowledgements for identifiers nobody waits for, an application message.  None of it is
 \* a step of the model above (no variable changes), so the demands of a case are the same with and without it.
-Preludes == {"pingresp", "foreignAcks", "inbound"}
+Preludes == {"pingresp", "foreignAcks", "inbound", "connacks"}   \* connacks: the broker repeats its CONNACK three times
 WithPre(x, p) == [k |-> x.k, l |-> x.l, cause |-> x.cause, cls |-> x.cls, done |-> x.done, pre |-> p]
 CaseSet == {WithPre(x, "") : x \in CaseSet0}
            \cup {WithPre(x, p) : x \in {y \in CaseSet0 : y.l \in {"waitAck", "waitComp"}}, p \in Preludes}   \* (not retryWaitComp)
